@@ -94,16 +94,36 @@ def run_history(ctx, r, n_cmds, weights, oracle, legacy=None, prelude=None, gen_
         st.close()
 
 
+def apply_edit(st, step):
+    """re-apply a recorded edit of the store's files (a step without argv) when a trace is replayed"""
+    import os
+    e = str(step.get("edit", ""))
+    if "bytes" in step and ("appended to the log" in e):
+        with open(st.log_path(), "ab") as f:
+            f.write(step["bytes"].encode())
+    elif e.startswith("final newline of the log removed"):
+        data = st.log_bytes()
+        if data.endswith(b"\n"):
+            open(st.log_path(), "wb").write(data[:-1])
+    elif e.startswith(".ergo/lock removed"):
+        try:
+            os.unlink(os.path.join(st.dir, "lock"))
+        except OSError:
+            pass
+    elif e.startswith(".ergo/plans.jsonl moved to shared/plans.jsonl"):
+        os.makedirs(os.path.join(st.root, "shared"), exist_ok=True)
+        os.rename(os.path.join(st.dir, "plans.jsonl"), os.path.join(st.root, "shared", "plans.jsonl"))
+        os.symlink(os.path.join("..", "shared", "plans.jsonl"), os.path.join(st.dir, "plans.jsonl"))
+
+
 def replay_trace(ctx, trace, legacy=False):
     """re-run a recorded trace against the current tree; returns the store (caller closes)"""
     legacy = legacy or any("legacy" in str(step.get("store", "")) for step in trace)
     st = cmdrun.Store(ctx.ergo, ctx.go, legacy=legacy)
     for step in trace:
         if "argv" not in step:
-            if "bytes" in step and "edit" in step:
-                with open(st.log_path(), "ab") as f:
-                    f.write(step["bytes"].encode())
-            print("·", {k: v for k, v in step.items()})
+            apply_edit(st, step)
+            print("·", {k: (v if len(str(v)) < 300 else str(v)[:300] + "…") for k, v in step.items()})
             continue
         r = st.exec(step["argv"], None if step.get("stdin") is None else step["stdin"].encode(), env=step.get("env"))
         print(" ".join(step["argv"]), "⇒ exit", r["exit"], r["stderr"].strip()[:160])
